@@ -29,7 +29,7 @@ def selectC (v : Val) (f : String) : PyM Val :=
       | none => .error .keyError
   | _ => .error .attributeError
 
-/-- `celpy.celtypes.BoolType(reduce(…))` at the end of `macro_all`/`macro_exists`: a `CELEvalError`
+/-- the driver's `Sem.toBool`: `celpy.celtypes.BoolType(reduce(…))` at the end of `macro_all`/`macro_exists`: a `CELEvalError`
 object is not convertible (`TypeError`); a `BoolType` is returned as is; other values are coerced by
 Python truthiness of `int(...)` (only reached for non-boolean bodies). -/
 def boolTypeOf (v : Val) : PyM Val :=
@@ -97,7 +97,7 @@ def evalC (S : Sem) : Expr → Env → PyM Val
   | .macro k a x body, env => do
       -- `macro_<k>(activation, 'x', ex_n_x, ex_n_l)`; the generator over `cel_gen(activation)`
       let recv ← evalC S a env
-      let elems ← iterV recv
+      let elems ← S.iter recv
       match k with
       | .map => do
           let rs ← mapMV (fun v => evalC S body (env.bind x v)) elems
@@ -111,11 +111,11 @@ def evalC (S : Sem) : Expr → Env → PyM Val
       | .all => do
           let rs ← mapMV (fun v => resultC (evalC S body (env.bind x v))) elems
           let r ← foldAnd (.bool true) rs
-          boolTypeOf r
+          S.toBool r
       | .exists_ => do
           let rs ← mapMV (fun v => resultC (evalC S body (env.bind x v))) elems
           let r ← foldOr (.bool false) rs
-          boolTypeOf r
+          S.toBool r
   | .has a, env => do
       -- `not isinstance(celpy.evaluation.result(activation, ex_n_h), CELEvalError)` — a Python bool
       let v ← resultC (evalC S a env)
